@@ -479,7 +479,7 @@ def case(ctx, rng, idx, state):
 if __name__ == "__main__":
     harness.main(
         PROP, "exploration", case, setup_fn=setup,
-        tiers=dict(quick=dict(cases=300, shards=8, time=100), thorough=dict(cases=3200, shards=16, time=1000)),
+        tiers=dict(quick=dict(cases=300, shards=8, time=900), thorough=dict(cases=3200, shards=16, time=3000)),
         rule="synthetic W90 data (random TB model, NB 1..7 (thorough 10), Gamma-centred meshes (2,2,2)...(5,2,2) in random "
              "k order, periodic-gauge MMN from BKVectors.from_kpoints, 4 kinds of trial projections, exact/near/resolved/"
              "chain/mixed degeneracies), NW 1..#bands in the outer window, frozen/outer windows at random positions incl. "
